@@ -579,6 +579,19 @@ def shapes_and_aliases(ctx, chk):
         if not rets or len(rets) > 6 or not all(isinstance(o.value, Obj) for o in rets):
             chk.unknown("R10.2", "%s: %d return paths" % (inst0, len(rets)))
             continue
+        # reductions without an identity (min / max / argmin / argmax without `initial=`) over an array shaped like the threshold raise
+        # "zero-size array to reduction operation" for thresholds with a size-0 axis, which the quantifier includes
+        seen_red = set()
+        for o in outs:
+            for c, _t in o.pc:
+                for a in [c] + list(atoms_of(c)):
+                    if isinstance(a, App) and a.fn in ("amin", "amax", "argmin", "argmax", "nanmin", "nanmax") and a.kwd("initial") is None and a.args:
+                        sh_a = libmodel.shape_of(a.args[0])
+                        if sh_a is not None and any(isinstance(i_, Star) and any(x == T for x in atoms_of(i_.inner)) for i_ in sh_a.items) and a.fn not in seen_red:
+                            seen_red.add(a.fn)
+                            chk.violation("R10.2", SCORES + ".cm", "%s:%s-of-threshold-shaped-array" % (inst0, a.fn),
+                                          "%s(...) without an identity over an array of shape %s steers the result" % (a.fn, show(sh_a, 60)),
+                                          "every threshold shape, size-0 axes included, yields a matrix (numpy raises for an empty min / max)", ctx.where(SCORES + ".cm"))
         for k, o in enumerate(rets):
             # every return path (special cases for empty / scalar thresholds included) delivers t.shape + (2, 2)
             inst = inst0 if k == 0 else "%s [path %d: %s]" % (inst0, k + 1, pc_text(o)[:70])
